@@ -6,6 +6,7 @@ CONSTANTS
   MaxIssued = 1
   Rebootstrap = FALSE
   Wipeouts = FALSE
+  Collide = FALSE
   Times = {1, 2}
   Design = "atomic"
 SPECIFICATION Spec
